@@ -139,6 +139,147 @@ func nameEscapeSet(c *core.Ctx, o *core.Ob) core.ByteSet {
 	return E
 }
 
+// nameWholeWriteSet looks for writes of the whole name (not a slice of it, not
+// a byte of it) in formatName and computes the set of bytes b such that a
+// non-empty name made only of b reaches such a write: every read of a byte of
+// the name is evaluated as b.  ok is false when the result is all 256 values
+// (the guard of the write is not a per-byte decision this evaluation follows).
+func nameWholeWriteSet(c *core.Ctx, o *core.Ob) (set core.ByteSet, site ast.Node, ok bool) {
+	fn := c.Prog.Func("pdf", "formatName")
+	g := fn.Graph()
+	info := fn.Info()
+	if fn.Decl.Type.Params == nil {
+		return set, nil, false
+	}
+	// the name parameter and its copies (l := []byte(name))
+	whole := map[types.Object]bool{}
+	for _, f := range fn.Decl.Type.Params.List {
+		for _, n := range f.Names {
+			if core.IsNamed(info.TypeOf(n), "pdf", "Name") {
+				whole[info.ObjectOf(n)] = true
+			}
+		}
+	}
+	isWhole := func(e ast.Expr) bool {
+		e = stripConv(info, e)
+		id, isID := e.(*ast.Ident)
+		return isID && whole[info.ObjectOf(id)]
+	}
+	for changed := true; changed; {
+		changed = false
+		for _, v := range g.Vs {
+			as, isAs := v.AST.(*ast.AssignStmt)
+			if !isAs || len(as.Lhs) != len(as.Rhs) {
+				continue
+			}
+			for i, l := range as.Lhs {
+				obj := core.ObjOf(info, l)
+				if obj != nil && !whole[obj] && isWhole(as.Rhs[i]) && len(defVertices(g, obj)) == 1 {
+					whole[obj] = true
+					changed = true
+				}
+			}
+		}
+	}
+	// "/" + string(name), string(name), l
+	var containsWhole func(e ast.Expr) bool
+	containsWhole = func(e ast.Expr) bool {
+		e = ast.Unparen(e)
+		if isWhole(e) {
+			return true
+		}
+		if be, isBin := e.(*ast.BinaryExpr); isBin && be.Op == token.ADD {
+			return containsWhole(be.X) || containsWhole(be.Y)
+		}
+		return false
+	}
+	var writes []*core.V
+	for _, v := range g.Vs {
+		if v.AST == nil {
+			continue
+		}
+		for _, cs := range core.CallsIn(info, v.AST, false) {
+			isWrite := strings.HasSuffix(cs.Key, ".Write") || strings.HasSuffix(cs.Key, ".WriteString") || cs.Key == "io.WriteString"
+			if !isWrite || len(cs.Call.Args) == 0 {
+				continue
+			}
+			if containsWhole(cs.Call.Args[len(cs.Call.Args)-1]) {
+				writes = append(writes, v)
+				site = cs.Call
+				o.At(fn.Site(cs.Call, "writes the whole name"))
+			}
+		}
+	}
+	if len(writes) == 0 {
+		return set, nil, false
+	}
+	// loops that read a byte of the name: their element variable, or name[i]
+	elem := map[types.Object]bool{}
+	var starts []*core.V
+	readsByte := func(n ast.Node) bool {
+		found := false
+		ast.Inspect(n, func(m ast.Node) bool {
+			switch x := m.(type) {
+			case *ast.IndexExpr:
+				if isWhole(x.X) {
+					found = true
+				}
+			case *ast.Ident:
+				if elem[info.ObjectOf(x)] {
+					found = true
+				}
+			}
+			return !found
+		})
+		return found
+	}
+	for _, h := range loopHeads(g) {
+		if r := h.Cond.Range; r != nil && isWhole(r.X) && r.Value != nil {
+			if obj := core.ObjOf(info, r.Value); obj != nil {
+				elem[obj] = true
+			}
+		}
+	}
+	for _, h := range loopHeads(g) {
+		body := succ(h, core.EdgeTrue)
+		if body == nil {
+			continue
+		}
+		reads := false
+		for v := range g.ReachFrom(body, true, core.AvoidVs(h)) {
+			if v.AST != nil && readsByte(v.AST) {
+				reads = true
+			}
+		}
+		if reads {
+			starts = append(starts, body)
+		}
+	}
+	if len(starts) == 0 {
+		return set, site, false
+	}
+	env := byteEnvFor(c.Prog, fn, nil)
+	env.Alias = func(e ast.Expr) bool {
+		e = ast.Unparen(e)
+		switch x := e.(type) {
+		case *ast.IndexExpr:
+			return isWhole(x.X)
+		case *ast.Ident:
+			return elem[info.ObjectOf(x)]
+		}
+		return false
+	}
+	isW := map[*core.V]bool{}
+	for _, w := range writes {
+		isW[w] = true
+	}
+	set = env.ReachSet(g, starts, func(v *core.V) bool { return isW[v] }, func(v *core.V) bool { return false })
+	if set.Len() == 256 {
+		return set, site, false
+	}
+	return set, site, true
+}
+
 // nameVerbatimSet computes for a scanner's ReadName the set V of bytes that
 // are appended to the result unchanged.
 func nameVerbatimSet(c *core.Ctx, o *core.Ob, shortPkg string) (V core.ByteSet, hashLiteral bool) {
@@ -349,6 +490,23 @@ func ruleNameEscape(c *core.Ctx, rule, readerPkg string) {
 		E := nameEscapeSet(c, o)
 		V, hashLit := nameVerbatimSet(c, o, readerPkg)
 		raw := E.Not()
+		// a fast path that writes the whole name as it is: the bytes that let a name pass
+		fast, fastSite, fastOK := nameWholeWriteSet(c, o)
+		if fastSite != nil && !fastOK {
+			o.Unrec("%s: formatName writes the whole name in one piece; for which bytes this path is taken is not decided", c.Prog.Pos(fastSite.Pos()))
+		}
+		if fastSite != nil && fastOK {
+			o.Fact("formatName writes names made only of %s in one piece", fast.String())
+			if bad := fast.Minus(raw); bad.Len() > 0 {
+				o.FailAt(c.Prog.Func("pdf", "formatName").Site(fastSite, ""), "a name made only of the bytes %s is written in one piece, without the escapes the byte-by-byte path gives them; the reader does not get the same name back", bad.String())
+			}
+			for b := 0; b < 256; b++ {
+				if fast[b] {
+					raw[b] = true
+					E[b] = false
+				}
+			}
+		}
 		o.Fact("formatName escapes %s", E.String())
 		o.Fact("%s ReadName keeps verbatim %s", readerPkg, V.String())
 		o.Count(256)
